@@ -809,7 +809,26 @@ def explore_schedules(ctx, h, shard, bound, cold=False):
                      'choices': list(x.choices)},
                     short(sequential, 400), short(after, 400))
 
-    stats = sched.explore(runner, bound, check, shard=shard)
+    try:
+        stats = sched.explore(runner, bound, check, shard=shard)
+    except sched.Divergence as exc:
+        if 'deadlock' not in str(exc):
+            raise
+        # every live thread waits for a lock of the library: the calls
+        # never return under this schedule
+        ctx.outcome('deadlock')
+        ctx.violation('sched-deadlock|{}'.format(h),
+                      'harness "{}": {} (schedule with switches at points '
+                      '{})'.format(name, exc, [
+                          (i, c) for i, c in enumerate(runner.ex.choices)
+                          if c]),
+                      {'kind': 'sched', 'h': h, 'cold': cold,
+                       'choices': list(runner.ex.choices)},
+                      'every call returns', 'deadlock')
+        runner.close()
+        return seen_outcomes
+    if runner.locks:
+        ctx.count('library_locks_made_scheduler_aware', len(runner.locks))
     ctx.count('schedules', stats['executions'])
     if stats['diverged']:
         ctx.count('schedule_replays_that_diverged', stats['diverged'])
